@@ -28,7 +28,7 @@ From Coq Require Import ZArith List Bool.
 From Low Require Import Lib.BitSeq Lib.Bytes Model.Pbcmpl Spec.PbcmplSpec
   Proofs.PbcmplIO Proofs.PbcmplHeader Proofs.PbcmplProofs Proofs.PbcmplMarshal
   Proofs.PbcmplFrames Proofs.PbcmplStream Proofs.PbcmplHistory Proofs.PbcmplWalk.
-From Low Require Import Model.PbcmplWalk Spec.PbcmplWalkSpec Lib.Val Run.PbcmplOps Run.PbcmplWalkOps Run.C06 Proofs.PbcmplOpsC06.
+From Low Require Import Model.PbcmplWalk Spec.PbcmplWalkSpec Lib.Val Run.PbcmplOps Run.PbcmplWalkOps Run.C06 Proofs.PbcmplOpsC06 Run.PbcmplSessionOps Proofs.PbcmplSessions Proofs.PbcmplBig.
 Import ListNotations.
 Open Scope Z_scope.
 
@@ -254,6 +254,63 @@ Theorem C06_op_walk : forall kind, kind = 0 \/ kind = 1 ->
   end = VL [VL (map v_wstep (frames_walk (k_enc kind) ms)); vzs []].
 Proof. exact op_Walk_frames. Qed.
 Print Assumptions C06_op_walk.
+
+(** histories (pbcmpl.Roundtrip/session): every connection of a session - cut (dropped,
+    clean EOF) or complete - reports what the specification says for the bytes that were
+    delivered, independently of the connections before it *)
+Theorem C06_op_session_connection : forall kind c,
+  kind = 0 \/ kind = 1 ->
+  let '(ms, pat, wl, cut) := c in
+  Forall msg_wf ms -> all_pos pat = true -> zlen (wire_of (k_enc kind) ms) < 2 ^ 63 ->
+  conn_model kind c
+    = v_stream_spec kind EEOF (cut_wire cut (wire_of (k_enc kind) ms)) (term_of 0 wl).
+Proof. exact conn_model_spec. Qed.
+Print Assumptions C06_op_session_connection.
+
+(** pbcmpl.Walk/bufio: the steps, and the headers HELD until the whole stream was walked,
+    are those of the frames (a *bufio.Reader is transparent: the model runs on the chunk
+    reader with the terminal error delivered alone) *)
+Theorem C06_op_walk_bufio : forall kind ms pat,
+  kind = 0 \/ kind = 1 ->
+  Forall msg_wf ms -> forallb (walk_body_ok kind) ms = true -> all_pos pat = true ->
+  zlen (wire_of (k_enc kind) ms) < 2 ^ 63 ->
+  match model_wire kind ms with
+  | None => VPanic
+  | Some wire =>
+      match c_Walk (chunks_of pat wire, term_of 0 false) with
+      | None => VPanic
+      | Some (steps, _) => v_walkheld steps
+      end
+  end = v_walkheld (frames_walk (k_enc kind) ms).
+Proof. exact walk_bufio_spec. Qed.
+Print Assumptions C06_op_walk_bufio.
+
+(** pbcmpl.Roundtrip/big: the run-length form in which bodies above 1 MiB are compared
+    denotes exactly the wire of the materialised messages (so the compared value is the
+    one C06_op_roundtrip proves for them) *)
+Theorem C06_big_wire : forall kind ms,
+  Forall (fun m => 0 <= snd (fst m)) ms ->
+  expand_runs (norm_runs (List.concat (map (big_frame_runs kind) ms)))
+    = wire_of (k_enc kind) (map materialise ms).
+Proof. exact big_wire_expand. Qed.
+Print Assumptions C06_big_wire.
+
+Example C06_sessions_nonvacuous :
+  let m := (Some [49; 46; 48], [7; 8; 9]) in
+  conn_model 0 ([m], [5], false, 34)
+    = VL [VL [VL [VZ 34; vzs [49; 46; 48]; VZ 2; vzs []; VZ 34]]; vzs []]
+  /\ conn_model 0 ([m], [5], false, -1)
+    = VL [VL [VL [VZ 35; vzs [49; 46; 48]; VZ 0; vzs [7; 8; 9]; VZ 35];
+              VL [VZ 0; vzs []; VZ 1; vzs []; VZ 35]]; vzs []]
+  /\ big_roundtrip 1 [(None, 3, 7)]
+    = VL [VL [VL [VZ 1; VZ 49]; VL [VZ 1; VZ 46]; VL [VZ 1; VZ 48]; VL [VZ 1; VZ 46]; VL [VZ 1; VZ 48];
+              VL [VZ 11; VZ 0]; VL [VZ 1; VZ 32]; VL [VZ 7; VZ 0]; VL [VZ 1; VZ 5]; VL [VZ 7; VZ 0];
+              VL [VZ 1; VZ 10]; VL [VZ 1; VZ 3]; VL [VZ 3; VZ 7]];
+          VL [VL [VZ 37; VZ 0; VZ 37; VZ 32]];
+          VL [VL [VZ 37; vzs [49; 46; 48; 46; 48]; VZ 0; VL [VL [VZ 3; VZ 7]]; VZ 37];
+              VL [VZ 0; vzs []; VZ 1; VL []; VZ 37]];
+          VL []].
+Proof. vm_compute. repeat split; reflexivity. Qed.
 
 (** non-vacuity: three frames (BytesValue bodies of 3, 0 and 200 bytes — the last one
     with a two-byte varint —, versions "1.2.3", none (DefaultVer) and 16 non-NUL bytes),
